@@ -8,17 +8,17 @@ S = "bounded-exhaustive operation-sequence exploration + explicit-state BFS of t
 V = "stateless deviation-bounded exploration of the real hybrid cache under a deterministic runtime and sim IO engine (Engine V)"
 CHECKS = {
  "C02": ("T", "model_checking", "preemption-bounded exhaustive exploration of thread interleavings of the real in-memory cache under a cooperative scheduler bound through a parking_lot facade (Engine T); per-key register oracle in the statement's form",
-   "All pairs of single operations for two threads, 2-vs-1 operation programs, three-thread programs; three initial states; LRU/S3-FIFO/FIFO (quick) or all five (thorough); shards 1 (1,2,4); every interleaving with <=2 (3) preemptions.",
-   "Lock acquire/release, spawn, join and exit are the scheduling points; adjacent plain atomics are not split; SC only; resize and get_or_fetch are not run concurrently here.", "DESIGN.md 2.5, 4 C02"),
+   "All pairs of single operations for two threads, 2-vs-1 operation programs, three-thread programs; three initial states; the same with a zero-weight contended key; final reads; LRU/S3-FIFO/FIFO (quick) or all five (thorough); shards 1 (1,2,4); every interleaving with <=2 (3) preemptions.",
+   "Lock acquire/release, spawn, join and exit are the scheduling points; adjacent plain atomics are not split; SC only; resize is not run concurrently here (get_or_fetch is).", "DESIGN.md 2.5, 4 C02"),
  "C08": ("inputs", "model_checking", "exhaustive input enumeration (every value of the small types, every byte-string length 0..=20480, every destination-buffer length) on the real encode/decode and end to end through the real hybrid cache, with the independent format reader D",
    "All u8/i8/u16/i16/bool values, pattern sets for wider types, Strings, Vec<u8>/Bytes of every length x 3 content classes; every too-small destination length; end-to-end insert->flush->evict->get->reopen->get for every (second) length x none/zstd/lz4.",
    "Both Code paths: the native implementations and (second build with foyer/serde) the blanket bincode implementation; wide numeric types are covered by bit patterns, not exhaustively.", "DESIGN.md 4 C08"),
  "C09": ("V", "model_checking", V + "; monitors on the device-write log and on pre-images parsed by the independent reader D",
    "Sustained workloads of ~4 device capacities on 4/6/8 blocks, flushers 1-3, reclaimers 1-2, clean threshold 1-2, reinsertion none/one key; Eager/LazyIo/Alternate(/ClientFirst) with all schedules within the deviation bound.",
    "Workloads are a fixed family; what is exhaustive is the schedule space within the bound; reinsertion is configured modestly (the crate documents that picking too much gets it stuck).", "DESIGN.md 4 C09"),
- "C16": ("S+T", "model_checking", "bounded-exhaustive sequence exploration with re-entrant callbacks under a lock-holding monitor (Engine S + parking_lot facade) and preemption-bounded thread exploration with deadlock detection (Engine T)",
+ "C16": ("S+T+V", "model_checking", "bounded-exhaustive sequence exploration with re-entrant callbacks under a lock-holding monitor (Engine S + parking_lot facade), preemption-bounded thread exploration with deadlock detection (Engine T) and deviation-bounded exploration of the hybrid cache with the same monitor in its user callbacks (Engine V)",
    "All sequences of <=3 (4) operations incl. in-flight fetches x five algorithms x re-entry mode; listener, weighter, filter, key and value destructors assert that no cache lock is held and call back into the cache; C02's thread programs with deadlock detection.",
-   "std::sync::RwLock in the block manager is not intercepted; hybrid-tier destructors are not instrumented.", "DESIGN.md 4 C16"),
+   "std::sync::RwLock in the block manager is not intercepted; the hybrid part probes value destructor, listener, weighter and admission filter (keys are u64 there).", "DESIGN.md 4 C16"),
 
  "C03": ("F", "fault_enumeration", "exhaustive single-page fault enumeration (zero / bit flips / page swaps / stale generations) over device images produced by real workloads, each reopened and fully read through the real code (enumerator F on Engine V images)",
    "Every page of every partition file incl. the tombstone log x the fault menu; 2 base images (quick) / 12 (thorough: compression x tombstone log x fresh/wrapped).",
@@ -48,11 +48,11 @@ CHECKS = {
  "C12": ("V", "model_checking", V + "; write-policy table P evaluated on the IO log decoded by the independent format reader D",
    "All histories of <=3 (4) calls over insert(Default/InMem/OnDisk)/get/get_or_fetch/fill/close x policies x flush_on_close x admission.",
    "No block is near reclaim (entries loaded from disk are never 'old'); wall-clock throttling is not driven.", "DESIGN.md 4 C12"),
- "C13": ("S", "model_checking", S + " (leave/offer conservation L)",
-   "All sequences to depth 3 (4) + deduplicated BFS with a recording listener and Pipe; five algorithms x shards 1..4.",
-   "Single caller thread; listener notifications of disk-only entries are unconstrained.", "DESIGN.md 4 C13"),
+ "C13": ("S+T", "model_checking", S + " (leave/offer conservation L); differential runs for caches without a listener; thread programs of Engine T with exactly-one-leave accounting",
+   "All sequences to depth 3 (4) + deduplicated BFS with a recording listener and Pipe; the same sequences on a cache with a Pipe but no listener, compared offer by offer; five algorithms x shards 1..4; C02's thread programs.",
+   "Listener notifications of disk-only entries are unconstrained; fetches are not part of the no-listener differential.", "DESIGN.md 4 C13"),
  "C14": ("S", "model_checking", S + " (five reference eviction algorithms A)",
-   "Single shard, all sequences to depth 3 (4) + BFS on the reference algorithm's complete state, several configurations per algorithm, capacities 2..6; victim sequences compared eviction by eviction.",
+   "Single shard, all sequences to depth 3 (4) + BFS on the reference algorithm's complete state, several configurations per algorithm, capacities 2..6, plus states reached through a resize; victim sequences compared eviction by eviction.",
    "Reference w-TinyLFU shares the datasketches sketch; S3-FIFO ghost duplicates and SIEVE hand reset follow the implementation (undocumented).", "DESIGN.md 4 C14"),
  "C15": ("V", "model_checking", V + "; close + reopen + read-back",
    "All histories of <=3 (4) calls ending in close / close;close / close;insert, reopen, read all; policies x flush_on_close.",
@@ -90,7 +90,7 @@ manifest = {
     },
     "engines": [
         {"name": "S", "path": "harness/checks/src/seq.rs", "serves_properties": ["C05", "C13", "C14", "C16", "C17", "C18"], "kind_free_text": "exhaustive operation sequences + explicit-state BFS on the real in-memory cache, lock-step with a reference ledger / reference algorithms"},
-        {"name": "V", "path": "harness/checks/src/hyb.rs", "serves_properties": ["C01", "C06", "C07", "C09", "C10", "C11", "C12", "C15", "C17"], "kind_free_text": "deviation-bounded stateless exploration of the real hybrid cache: vrt (madsim-tokio substitute) owns task polling, simio owns device IO completion/failure, the client program owns call timing"},
+        {"name": "V", "path": "harness/checks/src/hyb.rs", "serves_properties": ["C01", "C06", "C07", "C09", "C10", "C11", "C12", "C15", "C16", "C17"], "kind_free_text": "deviation-bounded stateless exploration of the real hybrid cache: vrt (madsim-tokio substitute) owns task polling, simio owns device IO completion/failure, the client program owns call timing"},
         {"name": "T", "path": "harness/checks/src/props_c02.rs + harness/plshim", "serves_properties": ["C02", "C13", "C16", "C18"], "kind_free_text": "preemption-bounded exploration of OS-thread interleavings: plshim (parking_lot substitute) turns every lock operation into a scheduling point of a cooperative scheduler"},
         {"name": "F/K", "path": "harness/checks/src/props_c03.rs, props_c04.rs", "serves_properties": ["C03", "C04"], "kind_free_text": "fault / crash enumerators over images and IO logs produced by Engine V, evaluated by real recovery"},
         {"name": "core", "path": "harness/vcore", "serves_properties": sorted(done), "kind_free_text": "iterative deviation bounding, replay files, evidence, known findings, process sharding"},
